@@ -16,6 +16,7 @@ import PolytuneModel.Thm.C06C07
 import PolytuneModel.Proto.Triples
 import PolytuneModel.Proto.Validate
 import PolytuneModel.Prim.AesRng
+import PolytuneModel.Proto.ABitCheck
 /-! `ptmodel`: one request per line on stdin, one response per line on stdout. -/
 open PolytuneModel PolytuneModel.Buf
 
@@ -194,6 +195,11 @@ def step (st : DState) (line : String) : DState × String :=
     match parseHexBytes x with
     | some b => (st, "blake3 " ++ hexOf (Blake3.hash b))
     | none => (st, "bad-op")
+  | ["abitcheck", seed, rows, xbits] =>
+    -- the Boolean fields of a `fabitn` message: `rows` combinations of the tapped bit string under the coefficients expanded from the tapped seed  (C06 / C04)
+    match parseHexBytes seed, rows.toNat? with
+    | some s, some r => (st, "abitcheck " ++ showBits (ABitCheck.combos s (parseBits xbits).toArray r))
+    | _, _ => (st, "bad-op")
   | ["prim", "ctrseq", seed, lens] =>
     -- a SEQUENCE of fill_bytes calls on one generator, through the stateful model of `AesRng` / `BlockRng` (C20_ctr_single_call is about its first call)
     match parseHexBytes seed, parseNats lens with
